@@ -23,8 +23,7 @@ from callgraph import callgraph
 from mir import body_of
 from report import site_of
 
-IO_TRAITS = ("std::io::Read", "std::io::Write", "std::io::Seek", "std::io::BufRead",
-             "byteorder::io::ReadBytesExt", "byteorder::io::WriteBytesExt")
+from packs_common import IO_TRAITS, io_fallible, is_io_result
 
 # partial-transfer / unbounded primitives: a short transfer is NOT transparent through these
 FORBIDDEN = {
@@ -41,30 +40,6 @@ ALLOWED_TRANSFER = {"std::io::Read::read_exact", "std::io::Write::write_all", "s
 FLOOR_SITES = 850      # counted: 985 io-fallible call expressions on the pinned tree
 FLOOR_IOFNS = 110      # counted: 133 io-fallible local functions
 FLOOR_TRANSFER = 500   # counted: 587 direct stream-method call sites in MIR
-
-
-def io_fallible(fx, cg):
-    direct = set()
-    for fid, sites in cg.sites.items():
-        for b, t, p, loc in sites:
-            c = t["callee"]
-            if c.get("trait") in IO_TRAITS:
-                direct.add(fid)
-            elif not loc and is_io_result(t["dest"]["ty"]):
-                direct.add(fid)
-    iof = set(direct)
-    changed = True
-    while changed:
-        changed = False
-        for f, es in cg.edges.items():
-            if f not in iof and es & iof:
-                iof.add(f)
-                changed = True
-    return direct, iof
-
-
-def is_io_result(ty):
-    return ty.startswith("core::result::Result<") and "std::io::error::Error" in ty
 
 
 def is_result(ty):
